@@ -23,6 +23,7 @@ import (
 // StackOpts configures a full proxy stack inside the bubble.
 type StackOpts struct {
 	Injectors        []reverseproxy.HeaderInjector
+	OwnHTTPServer    bool // replace Server.HTTPServer by a caller-supplied http.Server (same handler) after NewServer
 	PreserveHost     bool
 	Probe            func(*http.Request) bool
 	To               string // backend URL (default http://backend.internal:8080)
@@ -112,6 +113,10 @@ func NewStack(o StackOpts) *Stack {
 	} else {
 		s.Server = proxyserver.NewServer(s.Ctx, s.Handler, tc)
 		s.Server.TLSHandshakeTimeout = o.HandshakeTimeout
+	}
+	if o.OwnHTTPServer {
+		// a library user brings an http.Server of its own (the field's comment invites that), with the same handler
+		s.Server.HTTPServer = &http.Server{Handler: s.Handler, ReadHeaderTimeout: 30 * time.Second, MaxHeaderBytes: 1 << 20}
 	}
 	s.Server.ErrorLog = log.New(s.Log, "[ps] ", 0)
 	s.Server.HTTPServer.ErrorLog = log.New(s.Log, "[http] ", 0)
